@@ -210,7 +210,7 @@ def check(ctx, run):
         if not calls:
             problems.append(f"does not call bs_{fam}_price")
         for e in calls:
-            kw = dict(e["kwargs"])
+            kw = dict(e.get("bound") or e["kwargs"])   # arguments by parameter name, however they were passed
             for n in names:
                 if kw.get(n) != W.tensor(n):
                     problems.append(f"{n} not forwarded")
